@@ -116,6 +116,9 @@ func (g *genr) csiOp(w, h int) string {
 		return "csi " + label + " " + g.sgrParams()
 	case "h", "l":
 		return fmt.Sprintf("csi %s %d", label, gen.Pick(r, ansiModes))
+	case "n":
+		// DSR: only 5 (status) and 6 (cursor position) are answered
+		return "csi " + label + " " + gen.Pick(r, []string{"5", "6", "6", "-", "0", "7", "5;6", "6:1", "65536"})
 	case "?h", "?l", "?$p":
 		if r.Chance(1, 5) {
 			return fmt.Sprintf("csi %s %d;%d", label, gen.Pick(r, decModes), gen.Pick(r, decModes))
@@ -305,6 +308,33 @@ func (g *genr) flush() {
 			g.r.Emit(l[0], l[1])
 			if f := strings.Fields(l[0]); len(f) > 0 {
 				g.r.Count("op:" + f[0])
+				// round 4: the arms that only answer the child / are empty / post an event (translated bodies since round 4)
+				switch {
+				case f[0] == "csi" && len(f) >= 2:
+					switch f[1] {
+					case "63":
+						g.r.Count("arm:csi-DA1")
+					case "3e63":
+						g.r.Count("arm:csi-DA2")
+					case "6e":
+						if len(f) >= 3 && (strings.HasPrefix(f[2], "5") || strings.HasPrefix(f[2], "6")) && !strings.HasPrefix(f[2], "65") {
+							g.r.Count("arm:csi-DSR-answered")
+						} else {
+							g.r.Count("arm:csi-DSR-ignored")
+						}
+					case "2470":
+						g.r.Count("arm:csi-$p-empty")
+					case "3f2470":
+						g.r.Count("arm:csi-DECRQM")
+					}
+					if len(f) >= 3 && strings.Contains(f[2], ":") && f[1] != "6d" {
+						g.r.Count("csi:non-SGR-with-subparameters")
+					}
+				case f[0] == "esc" && len(f) >= 2 && f[1] == "2338":
+					g.r.Count("arm:esc-#8-empty")
+				case f[0] == "c0" && len(f) >= 2 && f[1] == "7":
+					g.r.Count("arm:c0-BEL")
+				}
 				if f[0] == "dcs" && len(f) == 5 {
 					switch {
 					case f[1] != "71":
